@@ -291,7 +291,10 @@ def _bind(helper, call, caller_names, uid, pairs=None, arg_uses=None):
         a = actual[p]
         if p not in helper.stored and (_is_simple(a) or uses.get(p, 0) == 0):
             mapping[p] = a
-        elif p not in helper.stored and uses.get(p, 0) == 1 and helper.single_expr:
+        elif p not in helper.stored and uses.get(p, 0) == 1 and helper.single_expr \
+                and sum(1 for q in helper.params if not _is_simple(actual[q])) == 1:
+            # the only argument that is not a plain name: its place in the evaluation order
+            # relative to the other arguments cannot change
             mapping[p] = a
         elif pairs and p in pairs and isinstance(a, ast.Name) and a.id == pairs[p] \
                 and (arg_uses or {}).get(a.id) == 1 and a.id not in (helper.stored - {p}):
